@@ -270,3 +270,129 @@ theorem py_build_mapping_entry (s i j : Nat) :
       simp [h1', hij, this]
 
 end GenPy
+
+namespace GenPy
+open PyPrelude Model
+
+def castL (l : List Nat) : List Int := l.map (fun (k : Nat) => (k : Int))
+def castP (x : Nat × Nat) : Int × Int := ((x.1 : Int), (x.2 : Int))
+theorem castL_cons (x : Nat) (xs : List Nat) : castL (x :: xs) = (x : Int) :: castL xs := rfl
+theorem castL_nil : castL [] = [] := rfl
+
+theorem contains_cast (l : List Nat) (i : Nat) : (castL l).contains (i : Int) = l.contains i := by
+  unfold castL
+  induction l with
+  | nil => rfl
+  | cons x xs ih =>
+    simp only [List.map_cons, List.contains_cons]
+    rw [ih]
+    congr 1
+    by_cases h : i = x
+    · subst h; simp
+    · have : ¬ (i : Int) = (x : Int) := by exact_mod_cast h
+      simp [h, this]
+
+theorem py_dag_mask (dag undag : List Nat) :
+    (castL dag).foldl (fun dag_mask i => if (!((castL undag).contains i)) then set_bit dag_mask i else dag_mask) (0 : Int) =
+      ((dagMaskPy dag undag : Nat) : Int) := by
+  unfold dagMaskPy
+  have : ∀ (l : List Nat) (m : Nat),
+      (castL l).foldl (fun dag_mask i => if (!((castL undag).contains i)) then set_bit dag_mask i else dag_mask) (m : Int) =
+        ((l.foldl (fun m i => if undag.contains i then m else setBit m i) m : Nat) : Int) := by
+    intro l
+    induction l with
+    | nil => intro m; rfl
+    | cons x xs ih =>
+      intro m
+      rw [castL_cons, List.foldl_cons, List.foldl_cons]
+      by_cases h : undag.contains x = true
+      · have hc : (castL undag).contains (x : Int) = true := by rw [contains_cast]; exact h
+        simp only [hc, h, Bool.not_true, Bool.false_eq_true, if_false, if_true]
+        exact ih m
+      · have h' : undag.contains x = false := by simpa using h
+        have hc : (castL undag).contains (x : Int) = false := by rw [contains_cast]; exact h'
+        simp only [hc, h', Bool.not_false, if_true, Bool.false_eq_true, if_false, py_set_bit]
+        exact ih _
+  exact this dag 0
+
+theorem py_undag_mask (undag : List Nat) :
+    (castL undag).foldl (fun undag_mask i => set_bit undag_mask i) (0 : Int) = ((undagMask undag : Nat) : Int) := by
+  unfold undagMask
+  have : ∀ (l : List Nat) (m : Nat), (castL l).foldl (fun undag_mask i => set_bit undag_mask i) (m : Int) =
+      ((l.foldl setBit m : Nat) : Int) := by
+    intro l
+    induction l with
+    | nil => intro m; rfl
+    | cons x xs ih =>
+      intro m
+      rw [castL_cons, List.foldl_cons, List.foldl_cons, py_set_bit]
+      exact ih _
+  exact this undag 0
+
+theorem castL_reverse (l : List Nat) : (castL l).reverse = castL l.reverse := by
+  unfold castL; rw [List.map_reverse]
+
+theorem py_fold_unset : ∀ (l : List Nat) (c p : Nat),
+    (castL l).foldl (fun (st : Int × Int) i => (unset_bit st.1 i, st.2 + count_bits_above st.1 i)) ((c : Int), (p : Int)) =
+      castP (l.foldl (fun (cp : Nat × Nat) i => (unsetBit cp.1 i, cp.2 + countBitsAbove cp.1 i)) (c, p)) := by
+  intro l
+  induction l with
+  | nil => intro c p; rfl
+  | cons x xs ih =>
+    intro c p
+    rw [castL_cons, List.foldl_cons, List.foldl_cons]
+    simp only [py_unset_bit, py_count_bits_above]
+    have : ((p : Int) + ((countBitsAbove c x : Nat) : Int)) = ((p + countBitsAbove c x : Nat) : Int) := by push_cast; rfl
+    rw [this]
+    exact ih _ _
+
+theorem py_fold_set : ∀ (l : List Nat) (c p : Nat),
+    (castL l).foldl (fun (st : Int × Int) i => (set_bit st.1 i, st.2 + count_bits_above st.1 i)) ((c : Int), (p : Int)) =
+      castP (l.foldl (fun (cp : Nat × Nat) i => (setBit cp.1 i, cp.2 + countBitsAbove cp.1 i)) (c, p)) := by
+  intro l
+  induction l with
+  | nil => intro c p; rfl
+  | cons x xs ih =>
+    intro c p
+    rw [castL_cons, List.foldl_cons, List.foldl_cons]
+    simp only [py_set_bit, py_count_bits_above]
+    have : ((p : Int) + ((countBitsAbove c x : Nat) : Int)) = ((p + countBitsAbove c x : Nat) : Int) := by push_cast; rfl
+    rw [this]
+    exact ih _ _
+
+/-- the reference-path operator-string map kernel, as translated from fci_graph.py on every run (Python ints), admits
+    a string and computes its target and parity exactly as the Model does (`makeMappingEachPy`) -/
+theorem py_mme_entry (s : Nat) (dag undag : List Nat) :
+    mme_entry (s : Int) (castL dag) (castL undag) =
+      (if (s &&& dagMaskPy dag undag) = 0 ∧ ((s &&& undagMask undag) ^^^ undagMask undag) = 0 then
+        some ((((mapEachStep dag undag s).1 : Nat) : Int), (((mapEachStep dag undag s).2 % 2 : Nat) : Int)) else none) := by
+  unfold mme_entry mme_masks
+  simp only []
+  rw [py_dag_mask, py_undag_mask]
+  simp only [pyAnd, pyXor, land_cast, xor_cast]
+  have z1 : (((s &&& dagMaskPy dag undag : Nat) : Int) = 0) ↔ (s &&& dagMaskPy dag undag) = 0 := by exact_mod_cast Iff.rfl
+  have z2 : ((((s &&& undagMask undag) ^^^ undagMask undag : Nat) : Int) = 0) ↔ ((s &&& undagMask undag) ^^^ undagMask undag) = 0 := by
+    exact_mod_cast Iff.rfl
+  by_cases h1 : (s &&& dagMaskPy dag undag) = 0
+  · by_cases h2 : ((s &&& undagMask undag) ^^^ undagMask undag) = 0
+    · have d1 : decide (((s &&& dagMaskPy dag undag : Nat) : Int) = 0) = true := by simp [z1.2 h1]
+      have d2 : decide ((((s &&& undagMask undag) ^^^ undagMask undag : Nat) : Int) = 0) = true := by simp [z2.2 h2]
+      simp only [d1, d2, Bool.and_self, if_true, h1, h2, and_self]
+      rw [castL_reverse, castL_reverse]
+      have e1 := py_fold_unset undag.reverse s 0
+      simp only [Nat.cast_zero] at e1
+      rw [e1]
+      unfold castP
+      rw [py_fold_set]
+      unfold mapEachStep castP
+      simp only [pyMod, fmod_two]
+      congr 2
+    · have d2 : decide ((((s &&& undagMask undag) ^^^ undagMask undag : Nat) : Int) = 0) = false := by
+        simp only [decide_eq_false_iff_not]; exact fun e => h2 (z2.1 e)
+      simp [d2, h2]
+  · have d1 : decide (((s &&& dagMaskPy dag undag : Nat) : Int) = 0) = false := by
+      simp only [decide_eq_false_iff_not]; exact fun e => h1 (z1.1 e)
+    simp [d1, h1]
+
+
+end GenPy
